@@ -350,9 +350,9 @@ def svdtf(source, target):
     target = target - ctntarget
     M = torch.einsum('...Na, ...Nb -> ...ab', target, source)
     U, S, Vh = torch.linalg.svd(M)
-    mask = (U @ Vh).det() < 0
-    U[mask, :, -1] = - U[mask, :, -1]
-    R = U @ Vh
+    d = torch.ones_like(S)
+    d[..., -1] = torch.where((U @ Vh).det() < 0, -1.0, 1.0) # flip the last singular direction of a reflection
+    R = (U * d.unsqueeze(-2)) @ Vh
     t = ctntarget.mT - R @ ctnsource.mT
     T = torch.cat((R, t), dim=-1)
     return mat2SE3(T, check=False)
